@@ -15,7 +15,7 @@ import (
 // in this valuation, e.g. the pointee of a nil pointer).
 func evalTerm(t string, vars map[string]string, env map[string]int64) (int64, string) {
 	switch t {
-	case "nil", "false":
+	case "nil", "false", `""`:
 		return 0, ""
 	case "true":
 		return 1, ""
